@@ -625,6 +625,15 @@ static int run_scenario(std::vector<std::string>& lines)
       in->fresh = 1000 * (in->idx + 1);
       insts[in->idx] = std::move(in);
     }
+    else if (c == "TF")
+    {
+      // transform parameters (binary32 bit patterns): x y z roll pitch yaw; acts only in an ENABLE_TRANSFORM build
+      Inst& in = *insts[(int)I(1)];
+      float f[6];
+      for (int k = 0; k < 6; k++) { uint32_t b = (uint32_t)strtoul(t[2 + k].c_str(), 0, 10); memcpy(&f[k], &b, 4); }
+      RSTransformParam& tp = in.param.decoder_param.transform_param;
+      tp.x = f[0]; tp.y = f[1]; tp.z = f[2]; tp.roll = f[3]; tp.pitch = f[4]; tp.yaw = f[5];
+    }
     else if (c == "A") { Inst& in = *insts[(int)I(1)]; in.answers.assign(t.begin() + 2, t.end()); }
     else if (c == "I")
     {
